@@ -424,7 +424,7 @@ func (fc *FuncCtx) callNamed(key string, fn *types.Func, args []Term, call *ast.
 			fc.unsupported(st, "call of "+key+" (has loops, needs a contract)", fc.pos(call))
 			return fc.deadResults(call)
 		}
-		if fc.inlineDep > 24 || fc.inStack(key) {
+		if fc.inlineDep > 24 || (fc.inStack(key) && !(con != nil && con.InlineCalls && key != fc.Ref.Key)) {
 			fc.unsupported(st, "call of "+key+" (recursive or too deep to inline, needs a contract)", fc.pos(call))
 			return fc.deadResults(call)
 		}
